@@ -27,6 +27,7 @@ enum TapeState {
     Pause,
 }
 
+#[cfg_attr(rustzx_verif, derive(Clone))]
 pub struct Tap<A: LoadableAsset + SeekableAsset> {
     asset: A,
     state: TapeState,
@@ -58,6 +59,62 @@ impl<A: LoadableAsset + SeekableAsset> Tap<A> {
             tape_ended: false,
         };
         Ok(tap)
+    }
+}
+
+/// Verification hook: complete observable state of the tape state machine
+#[cfg(rustzx_verif)]
+#[derive(Clone, Debug, PartialEq, Eq, Hash)]
+pub struct VerifTapState {
+    /// (tag, numeric payload, mask) of `state`
+    pub state: (u8, usize, u8),
+    /// (tag, numeric payload, mask) of `prev_state`
+    pub prev_state: (u8, usize, u8),
+    pub buffer: [u8; BUFFER_SIZE],
+    pub buffer_offset: usize,
+    pub block_bytes_read: usize,
+    pub current_block_size: Option<usize>,
+    pub tape_ended: bool,
+    pub curr_bit: bool,
+    pub curr_byte: u8,
+    pub delay: usize,
+}
+
+#[cfg(rustzx_verif)]
+impl<A: LoadableAsset + SeekableAsset> Tap<A> {
+    fn verif_encode(state: TapeState) -> (u8, usize, u8) {
+        match state {
+            TapeState::Stop => (0, 0, 0),
+            TapeState::Play => (1, 0, 0),
+            TapeState::Pilot { pulses_left } => (2, pulses_left, 0),
+            TapeState::Sync => (3, 0, 0),
+            TapeState::NextByte => (4, 0, 0),
+            TapeState::NextBit { mask } => (5, 0, mask),
+            TapeState::BitHalf {
+                half_bit_delay,
+                mask,
+            } => (6, half_bit_delay, mask),
+            TapeState::Pause => (7, 0, 0),
+        }
+    }
+
+    pub fn verif_state(&self) -> VerifTapState {
+        VerifTapState {
+            state: Self::verif_encode(self.state),
+            prev_state: Self::verif_encode(self.prev_state),
+            buffer: self.buffer,
+            buffer_offset: self.buffer_offset,
+            block_bytes_read: self.block_bytes_read,
+            current_block_size: self.current_block_size,
+            tape_ended: self.tape_ended,
+            curr_bit: self.curr_bit,
+            curr_byte: self.curr_byte,
+            delay: self.delay,
+        }
+    }
+
+    pub fn verif_asset(&self) -> &A {
+        &self.asset
     }
 }
 
